@@ -862,7 +862,26 @@ func (c *checker) typing(in ir.Instruction) {
 			}
 		}
 		t("type.select", ok && tup.Len() == nrecv+2, "select with %d receives yields %s", nrecv, in.Type())
+		if ok && tup.Len() == nrecv+2 {
+			// (index int, recvOk bool, r_0 T_0, ... r_n-1 T_n-1): one component per receive, in state order
+			k := 0
+			for _, s := range in.States {
+				if s.Dir != types.RecvOnly {
+					continue
+				}
+				if ch, isChan := typeutilCoreChan(s.Chan.Type()); isChan {
+					t("type.select", ident(tup.At(2+k).Type(), ch.Elem()), "receive #%d on %s has tuple component %s", k, s.Chan.Type(), tup.At(2+k).Type())
+				}
+				k++
+			}
+		}
 	}
+}
+
+// typeutilCoreChan returns the channel type behind t (plain channels only; type parameters are skipped).
+func typeutilCoreChan(t types.Type) (*types.Chan, bool) {
+	ch, ok := t.Underlying().(*types.Chan)
+	return ch, ok
 }
 
 func (c *checker) call(in ir.Instruction, cc *ir.CallCommon, resT types.Type) {
